@@ -14,6 +14,7 @@ func VerifH_C11_versions() {
 	h[0] = vMustOpen(bkt.client(1), vTableOpts{bf: 2}, 1000)
 	h[1] = vMustOpen(bkt.client(2), vTableOpts{bf: 2}, 1001)
 	var snaps []vSnap
+	snaps = append(snaps, vSnap{}) // the empty table, before anything was written
 	snap := func(vt *VirtualTable) vSnap {
 		names, err := vt.Tree.Root.Roots()
 		symAssert(err == nil, "roots-ok")
@@ -68,7 +69,9 @@ func VerifH_C11_versions() {
 	// every recorded version, re-read now, shows exactly the rows recorded then
 	for _, s := range snaps {
 		if len(s.names) == 0 {
-			continue
+			// the version of the still empty table: s3db_version() returns '[]',
+			// which denotes the empty snapshot, not "whatever is current"
+			s.names = []string{}
 		}
 		ro, err := vOpen(bkt.fork().client(6), vTableOpts{bf: 2, readOnly: true, versions: s.names}, 9000)
 		symAssert(err == nil, "reopen-by-version-ok")
